@@ -26,6 +26,10 @@ def norm_capture(c: dict) -> dict:
     if m:
         raw = raw.replace(m.group(1).encode(), b"BOUNDARY")
         hdr = [(k, v.replace(m.group(1), "BOUNDARY") if k == "content-type" else v) for k, v in hdr]
+    else:
+        m2 = re.match(rb"--([0-9a-f]{32})\r\n", raw)  # multipart content under another Content-Type (multi-body dispatch finding)
+        if m2:
+            raw = raw.replace(m2.group(1), b"BOUNDARY")
     return {"method": c["method"], "url": c["url"], "headers": hdr, "content": raw.hex()}
 
 
